@@ -72,7 +72,8 @@ let name_like (nd : rval) (rf : pyval option) : bool =
   !name_mode &&
   match nd with
   | RNode (NLeaf (_, v)) ->
-    (match rf with None -> v = PNone | Some r -> to_string (sexp_of_pyval r) = to_string (sexp_of_pyval v))
+    v = PNone   (* name() of the root is the None singleton: its identity is that of every null of the document *)
+    || (match rf with None -> false | Some r -> to_string (sexp_of_pyval r) = to_string (sexp_of_pyval v))
   | _ -> false
 
 let rec item_sexp (v : rval) : t =
